@@ -1,1 +1,476 @@
-// placeholder
+//! Single-game formats: FFOW, Savage 2, JC2-MP, Mindustry, Eco.
+
+use super::*;
+use crate::vnet::{Chooser, ConnInfo, Responder};
+use gamedig::games::{ffow, jc2m, mindustry, savage2};
+use gamedig::protocols::valve::{Environment, Server};
+
+// ---------------------------------------------------------------------------
+// Frontlines: Fuel of War (Valve transport, request 0x46 "LSQ")
+
+#[derive(Clone, Debug, PartialEq)]
+pub struct FfowState {
+    pub protocol: u8,
+    pub name: String,
+    pub map: String,
+    pub active_mod: String,
+    pub game_mode: String,
+    pub description: String,
+    pub version: String,
+    pub port: u16,
+    pub online: u8,
+    pub max: u8,
+    pub server_type: u8,
+    pub env: u8,
+    pub password: u8,
+    pub secure: u8,
+    pub fps: u8,
+    pub round: u8,
+    pub max_rounds: u8,
+    pub time_left: u16,
+}
+
+impl FfowState {
+    pub fn payload(&self) -> Vec<u8> {
+        let mut b = vec![0xFF, 0xFF, 0xFF, 0xFF, 0x47, self.protocol];
+        cstr(&mut b, &self.name);
+        cstr(&mut b, &self.map);
+        cstr(&mut b, &self.active_mod);
+        cstr(&mut b, &self.game_mode);
+        cstr(&mut b, &self.description);
+        cstr(&mut b, &self.version);
+        b.extend_from_slice(&self.port.to_le_bytes());
+        b.push(self.online);
+        b.push(self.max);
+        b.push(self.server_type);
+        b.push(self.env);
+        b.push(self.password);
+        b.push(self.secure);
+        b.push(self.fps);
+        b.push(self.round);
+        b.push(self.max_rounds);
+        b.extend_from_slice(&self.time_left.to_le_bytes());
+        b
+    }
+
+    pub fn expected(&self) -> ffow::Response {
+        ffow::Response {
+            protocol_version: self.protocol,
+            name: self.name.clone(),
+            active_mod: self.active_mod.clone(),
+            game_mode: self.game_mode.clone(),
+            game_version: self.version.clone(),
+            description: self.description.clone(),
+            map: self.map.clone(),
+            players_online: self.online,
+            players_maximum: self.max,
+            server_type: match self.server_type.to_ascii_lowercase() {
+                b'd' => Server::Dedicated,
+                b'l' => Server::NonDedicated,
+                _ => Server::TV,
+            },
+            environment_type: match self.env.to_ascii_lowercase() {
+                b'l' => Environment::Linux,
+                b'w' => Environment::Windows,
+                _ => Environment::Mac,
+            },
+            has_password: self.password == 1,
+            vac_secured: self.secure == 1,
+            round: self.round,
+            rounds_maximum: self.max_rounds,
+            time_left: self.time_left,
+        }
+    }
+}
+
+pub fn gen_ffow(c: &mut Chooser) -> FfowState {
+    FfowState {
+        protocol: pick(c, &u8_alts(2)),
+        name: pick_str(c, "FFOW server"),
+        map: pick_str(c, "ffow-village"),
+        active_mod: pick_str(c, "ffow"),
+        game_mode: pick_str(c, "Frontlines"),
+        description: pick_str(c, "Welcome"),
+        version: pick_str(c, "1.3.0"),
+        port: pick(c, &u16_alts(5476)),
+        online: pick(c, &u8_alts(7)),
+        max: pick(c, &u8_alts(32)),
+        server_type: pick(c, &[b'd', b'l', b'p', b'D']),
+        env: pick(c, &[b'w', b'l', b'm', b'W']),
+        password: pick(c, &[0u8, 1, 2]),
+        secure: pick(c, &[1u8, 0, 2]),
+        fps: pick(c, &u8_alts(60)),
+        round: pick(c, &u8_alts(3)),
+        max_rounds: pick(c, &u8_alts(9)),
+        time_left: pick(c, &u16_alts(754)),
+    }
+}
+
+pub const FFOW_REQUEST: &[u8] = &[0xFF, 0xFF, 0xFF, 0xFF, 0x46, b'L', b'S', b'Q'];
+
+pub struct FfowServer {
+    pub state: FfowState,
+    /// GoldSrc-split the reply into this many fragments (1 = single datagram)
+    pub fragments: usize,
+    /// issue this many challenges first
+    pub rounds: usize,
+    issued: usize,
+    last: Option<[u8; 4]>,
+}
+
+impl FfowServer {
+    pub fn new(state: FfowState, fragments: usize, rounds: usize) -> Self {
+        Self {
+            state,
+            fragments,
+            rounds,
+            issued: 0,
+            last: None,
+        }
+    }
+}
+
+impl Responder for FfowServer {
+    fn on_datagram(&mut self, _c: &ConnInfo, data: &[u8]) -> Vec<Vec<u8>> {
+        if data.len() < 5 || data[.. 5] != [0xFF, 0xFF, 0xFF, 0xFF, 0x46] {
+            return vec![];
+        }
+        let rest = &data[5 ..];
+        if self.issued < self.rounds {
+            if self.issued == 0 && rest != b"LSQ" {
+                return vec![];
+            }
+            if self.issued > 0 && Some(rest) != self.last.as_ref().map(|c| &c[..]) {
+                return vec![];
+            }
+            let ch = [0x11 + self.issued as u8, 0x00, 0xFF, 0x5C];
+            self.issued += 1;
+            self.last = Some(ch);
+            return vec![vec![0xFF, 0xFF, 0xFF, 0xFF, 0x41, ch[0], ch[1], ch[2], ch[3]]];
+        }
+        if self.rounds == 0 {
+            if rest != b"LSQ" {
+                return vec![];
+            }
+        } else if Some(rest) != self.last.as_ref().map(|c| &c[..]) {
+            return vec![];
+        }
+        let p = self.state.payload();
+        if self.fragments <= 1 {
+            vec![p]
+        } else {
+            crate::rsm::valve::frame(
+                &p,
+                &crate::rsm::valve::Framing::Gold {
+                    cuts: even_cuts(p.len(), self.fragments),
+                    id: 0x55,
+                },
+            )
+        }
+    }
+}
+
+// ---------------------------------------------------------------------------
+// Savage 2
+
+#[derive(Clone, Debug, PartialEq)]
+pub struct Savage2State {
+    pub header: [u8; 12],
+    pub name: String,
+    pub online: u8,
+    pub max: u8,
+    pub time: String,
+    pub map: String,
+    pub next_map: String,
+    pub location: String,
+    pub min_players: u8,
+    pub game_mode: String,
+    pub version: String,
+    pub min_level: u8,
+}
+
+impl Savage2State {
+    pub fn datagram(&self) -> Vec<u8> {
+        let mut b = self.header.to_vec();
+        cstr(&mut b, &self.name);
+        b.push(self.online);
+        b.push(self.max);
+        cstr(&mut b, &self.time);
+        cstr(&mut b, &self.map);
+        cstr(&mut b, &self.next_map);
+        cstr(&mut b, &self.location);
+        b.push(self.min_players);
+        cstr(&mut b, &self.game_mode);
+        cstr(&mut b, &self.version);
+        b.push(self.min_level);
+        b
+    }
+    pub fn expected(&self) -> savage2::Response {
+        savage2::Response {
+            name: self.name.clone(),
+            players_online: self.online,
+            players_maximum: self.max,
+            players_minimum: self.min_players,
+            time: self.time.clone(),
+            map: self.map.clone(),
+            next_map: self.next_map.clone(),
+            location: self.location.clone(),
+            game_mode: self.game_mode.clone(),
+            protocol_version: self.version.clone(),
+            level_minimum: self.min_level,
+        }
+    }
+}
+
+pub fn gen_savage2(c: &mut Chooser) -> Savage2State {
+    Savage2State {
+        header: pick(c, &[[0x9a, 0x16, 0x03, 0, 0, 0, 0, 0, 0, 0, 0, 0], [0xFF; 12], [0; 12]]),
+        name: pick_str(c, "Savage 2 server"),
+        online: pick(c, &u8_alts(5)),
+        max: pick(c, &u8_alts(40)),
+        time: pick_str(c, "12:34"),
+        map: pick_str(c, "crossroads"),
+        next_map: pick_str(c, "eden"),
+        location: pick_str(c, "EU"),
+        min_players: pick(c, &u8_alts(2)),
+        game_mode: pick_str(c, "normal"),
+        version: pick_str(c, "2.1.1.1"),
+        min_level: pick(c, &u8_alts(1)),
+    }
+}
+
+pub struct Savage2Server {
+    pub state: Savage2State,
+}
+impl Responder for Savage2Server {
+    fn on_datagram(&mut self, _c: &ConnInfo, data: &[u8]) -> Vec<Vec<u8>> {
+        if data == [0x01] {
+            vec![self.state.datagram()]
+        } else {
+            vec![]
+        }
+    }
+}
+
+// ---------------------------------------------------------------------------
+// Just Cause 2: Multiplayer (GameSpy 3 transport, single packet)
+
+#[derive(Clone, Debug, PartialEq)]
+pub struct Jc2mState {
+    pub hostname: String,
+    pub version: String,
+    pub description: String,
+    pub password: String,
+    pub maxplayers: u32,
+    pub numplayers: Option<u32>,
+    pub extra: Vec<(String, String)>,
+    pub players: Vec<(String, String, u16)>,
+}
+
+impl Jc2mState {
+    pub fn packet(&self) -> Vec<u8> {
+        let mut b = vec![0x00, 0x00, 0x00, 0x00, 0x01];
+        cstr(&mut b, "splitnum");
+        b.push(0x80);
+        b.push(0x00);
+        let mut kv: Vec<(String, String)> = vec![
+            ("hostname".into(), self.hostname.clone()),
+            ("version".into(), self.version.clone()),
+            ("description".into(), self.description.clone()),
+            ("password".into(), self.password.clone()),
+            ("maxplayers".into(), self.maxplayers.to_string()),
+        ];
+        if let Some(n) = self.numplayers {
+            kv.push(("numplayers".into(), n.to_string()));
+        }
+        kv.extend(self.extra.iter().cloned());
+        for (k, v) in kv {
+            cstr(&mut b, &k);
+            cstr(&mut b, &v);
+        }
+        b.push(0);
+        b.extend_from_slice(&(self.players.len() as u16).to_be_bytes());
+        for (n, s, p) in &self.players {
+            cstr(&mut b, n);
+            cstr(&mut b, s);
+            b.extend_from_slice(&p.to_be_bytes());
+        }
+        b
+    }
+    pub fn expected(&self) -> jc2m::Response {
+        let pw = self.password.to_lowercase();
+        let listed = self.players.len() as u32;
+        jc2m::Response {
+            game_version: self.version.clone(),
+            description: self.description.clone(),
+            name: self.hostname.clone(),
+            has_password: match pw.parse::<bool>() {
+                Ok(b) => b,
+                Err(_) => pw.parse::<u8>().map(|n| n != 0).unwrap_or(false),
+            },
+            players: self
+                .players
+                .iter()
+                .map(|(n, s, p)| {
+                    jc2m::Player {
+                        name: n.clone(),
+                        steam_id: s.clone(),
+                        ping: *p,
+                    }
+                })
+                .collect(),
+            players_maximum: self.maxplayers,
+            players_online: match self.numplayers {
+                None => listed,
+                Some(n) => n.max(listed),
+            },
+        }
+    }
+}
+
+pub fn gen_jc2m(c: &mut Chooser, player_counts: &[usize]) -> Jc2mState {
+    let hostname = pick_str(c, "JC2-MP server");
+    let version = pick_str(c, "0.1.4");
+    let description = pick_str(c, "Freeroam");
+    let password = pick(c, &["0", "1", "true", "False"]).to_string();
+    let maxplayers = pick(c, &u32_alts(1000));
+    let n = pick(c, player_counts);
+    let numplayers = pick(c, &[
+        Some(n as u32),
+        None,
+        Some(0),
+        Some(n as u32 + 5),
+        Some(u32::MAX),
+    ]);
+    let extra = if pick(c, &[false, true]) { vec![("gamemode".to_string(), "fr".to_string())] } else { vec![] };
+    let players = (0 .. n)
+        .map(|i| {
+            if i < 2 {
+                (
+                    pick_str(c, if i == 0 { "Rico" } else { "Bolo" }),
+                    pick_str(c, "76561198000000000"),
+                    pick(c, &u16_alts(55)),
+                )
+            } else {
+                (format!("p{i}"), format!("7656{i}"), i as u16)
+            }
+        })
+        .collect();
+    Jc2mState {
+        hostname,
+        version,
+        description,
+        password,
+        maxplayers,
+        numplayers,
+        extra,
+        players,
+    }
+}
+
+// ---------------------------------------------------------------------------
+// Mindustry
+
+#[derive(Clone, Debug, PartialEq)]
+pub struct MindustryState {
+    pub host: String,
+    pub map: String,
+    pub players: i32,
+    pub wave: i32,
+    pub version: i32,
+    pub version_type: String,
+    pub gamemode: u8,
+    pub limit: i32,
+    pub description: String,
+    pub mode_name: Option<String>,
+}
+
+fn lstr(b: &mut Vec<u8>, s: &str) {
+    assert!(s.len() <= 255);
+    b.push(s.len() as u8);
+    b.extend_from_slice(s.as_bytes());
+}
+
+impl MindustryState {
+    pub fn datagram(&self) -> Vec<u8> {
+        let mut b = Vec::new();
+        lstr(&mut b, &self.host);
+        lstr(&mut b, &self.map);
+        b.extend_from_slice(&self.players.to_be_bytes());
+        b.extend_from_slice(&self.wave.to_be_bytes());
+        b.extend_from_slice(&self.version.to_be_bytes());
+        lstr(&mut b, &self.version_type);
+        b.push(self.gamemode);
+        b.extend_from_slice(&self.limit.to_be_bytes());
+        lstr(&mut b, &self.description);
+        if let Some(m) = &self.mode_name {
+            lstr(&mut b, m);
+        }
+        b
+    }
+    pub fn expected(&self) -> mindustry::types::ServerData {
+        use mindustry::types::GameMode::*;
+        mindustry::types::ServerData {
+            host: self.host.clone(),
+            map: self.map.clone(),
+            players: self.players,
+            wave: self.wave,
+            version: self.version,
+            version_type: self.version_type.clone(),
+            gamemode: match self.gamemode {
+                0 => Survival,
+                1 => Sandbox,
+                2 => Attack,
+                3 => PVP,
+                _ => Editor,
+            },
+            player_limit: self.limit,
+            description: self.description.clone(),
+            mode_name: self.mode_name.clone(),
+        }
+    }
+}
+
+pub fn gen_mindustry(c: &mut Chooser) -> MindustryState {
+    let s = |c: &mut Chooser, d: &str| {
+        pick(c, &[
+            d.to_string(),
+            String::new(),
+            "a".to_string(),
+            "Zürich 東京 ☃".to_string(),
+            long_string(100),
+        ])
+    };
+    MindustryState {
+        host: s(c, "Mindustry host"),
+        map: s(c, "Ancient Caldera"),
+        players: pick(c, &i32_alts(4)),
+        wave: pick(c, &i32_alts(27)),
+        version: pick(c, &i32_alts(146)),
+        version_type: s(c, "official"),
+        gamemode: pick(c, &[0u8, 1, 2, 3, 4]),
+        limit: pick(c, &i32_alts(0)),
+        description: s(c, "A description"),
+        mode_name: pick(c, &[
+            None,
+            Some("campaign".to_string()),
+            Some(String::new()),
+            Some("Zürich".to_string()),
+        ]),
+    }
+}
+
+pub const MINDUSTRY_REQUEST: &[u8] = &[0xFE, 0x01];
+
+pub struct MindustryServer {
+    pub state: MindustryState,
+}
+impl Responder for MindustryServer {
+    fn on_datagram(&mut self, _c: &ConnInfo, data: &[u8]) -> Vec<Vec<u8>> {
+        if data == MINDUSTRY_REQUEST {
+            vec![self.state.datagram()]
+        } else {
+            vec![]
+        }
+    }
+}
